@@ -77,7 +77,9 @@ func LoadWorld(repo string, overlay map[string][]byte, extraEnv []string) (*Worl
 		w, cur = w2, ov
 	}
 	// helper normalisation (inline.go): functions that are not in the reference table are inlined into their callers
-	nw := normaliseHelpers(w, repo, cur, extraEnv)
+	nw, ov := normaliseHelpers(w, repo, cur, extraEnv)
+	// scalar replacement (scalarise.go): local variables of struct types that are not in the reference table
+	nw = scalariseLocals(nw, repo, ov, extraEnv)
 	if nw != w {
 		nw.AsWritten = w
 	}
